@@ -11,6 +11,7 @@ import (
 	"fmt"
 	"math"
 	"os"
+	"strconv"
 )
 
 func f64frombits(b uint64) float64 { return math.Float64frombits(b) }
@@ -82,6 +83,12 @@ func Param(name string, def int) int {
 func Symbolic() bool { return false }
 
 func Byte(tag string) byte   { return byte(next(tag, "b8")) }
+// ByteIn returns a symbolic byte in [lo,hi].
+func ByteIn(tag string, lo, hi byte) byte { return byte(next(tag, "b8")) }
+
+// Digit returns a symbolic ASCII decimal digit in ['0'+lo, '9'].
+func Digit(tag string, lo int) byte { return '0' + byte(next(tag, "b4")) }
+
 func Uint8(tag string) uint8 { return uint8(next(tag, "b8")) }
 func Bytes(tag string, n int) []byte {
 	out := make([]byte, n)
@@ -114,6 +121,12 @@ func IntIn(tag string, lo, hi int) int {
 	}
 	return int(v)
 }
+
+// FloatText returns the decimal text a parsed float64 stands for. Under the
+// executor it is the exact text the implementation handed to
+// strconv.ParseFloat; natively it is the shortest decimal of f (whose
+// denotation rounds to the same float64).
+func FloatText(f float64) (string, bool) { return strconv.FormatFloat(f, 'g', -1, 64), true }
 
 func Bool(tag string) bool       { return next(tag, "o") != 0 }
 func Float64(tag string) float64 { return f64frombits(next(tag, "f64")) }
